@@ -408,8 +408,29 @@ func runC13(rt *rapid.T, c c13case, st *stats.Collector) {
 	if err := doBounded(rt, e, client, context.Background(), ch.Query{Body: "INSERT INTO t SELECT a, bb FROM s"}, time.Minute, "follow-up statement without result or input"); err != nil {
 		rt.Fatalf("follow-up statement without result or input, answered by a %d-column schema block and end of stream at negotiated revision %d, %v after the handshake: %v", 2+N%2, N, effHS+time.Second, err)
 	}
-	// Parameters are refused iff N < 54459.
+	// A query with an external table that has columns but no rows: the block the client writes for it
+	// has the per-column fields of revision N like any other (the reference parser reads it at N).
 	e.srv.Steps = append(e.srv.Steps, itemStep(Item{Kind: "eos"}, simnet.AfterQuery(4), 0, nil))
+	emptyExt := proto.Input{{Name: "k", Data: new(proto.ColUInt64)}, {Name: "s", Data: new(proto.ColStr)}}
+	if err := doBounded(rt, e, client, context.Background(), ch.Query{Body: "SELECT count() FROM ext", ExternalData: emptyExt, ExternalTable: "ext"}, time.Minute, "query with an empty external table"); err != nil {
+		rt.Fatalf("query with an empty external table at negotiated revision %d: %v", N, err)
+	}
+	e.srv.WithStream(func(cs *ref.ClientStream) {
+		if cs.Err != nil || cs.Pending() != 0 {
+			rt.Fatalf("query with an external table of two columns and no rows: what the client wrote does not parse at the negotiated revision %d with %s: %v (%d bytes pending)", N, c.comp.Name, cs.Err, cs.Pending())
+		}
+		found := false
+		for _, p := range cs.DataSinceQuery() {
+			if p.Block != nil && len(p.Block.Columns) == 2 && p.Block.Rows() == 0 && p.Table == "ext" {
+				found = true
+			}
+		}
+		if !found {
+			rt.Fatalf("query with an empty external table: no Data packet for table ext with two columns and no rows was written at revision %d", N)
+		}
+	})
+	// Parameters are refused iff N < 54459.
+	e.srv.Steps = append(e.srv.Steps, itemStep(Item{Kind: "eos"}, simnet.AfterQuery(5), 0, nil))
 	before := e.conn.NumWrites()
 	perr := doBounded(rt, e, client, context.Background(), ch.Query{Body: "SELECT {a:Int8}", Parameters: []proto.Parameter{{Key: "a", Value: "1"}}}, time.Minute, "query with parameters")
 	if N < ref.RevParameters {
